@@ -470,7 +470,18 @@ fn rnd_sc(r: &mut Rng, sc: &str, dst: &str) -> u64 {
         }
         _ => {
             let w: u32 = if sc == "usize" { 64 } else { sc[1..].parse().unwrap() };
-            let v = rnd_i(r, w, sc.starts_with('i'));
+            let signed = sc.starts_with('i');
+            let mut v = rnd_i(r, w, signed);
+            // integer -> float: values one unit above / below / exactly on a rounding tie of the destination format
+            // (2^k + 2^(k-p) is half-way between two neighbours of precision p): wrong if the conversion rounds twice
+            let p: u32 = if dst == "f32" { 24 } else if dst == "f64" { 53 } else { 0 };
+            let top = if signed { w - 1 } else { w };
+            if p != 0 && top > p + 1 && r.below(3) == 0 {
+                let k = p + 1 + r.below((top - p - 1) as u64) as u32;           // p+1 <= k <= top-1
+                let tie: i128 = (1i128 << k) + (1i128 << (k - p)) + if r.below(2) == 0 { 1i128 << (k - p + 1) } else { 0 };
+                v = tie + (r.below(3) as i128 - 1);
+                if signed && r.below(2) == 0 { v = -v; }
+            }
             (v as u64) & if w == 64 { u64::MAX } else { (1u64 << w) - 1 }
         }
     }
@@ -840,6 +851,13 @@ macro_rules! rel_vec {
             if b.length() > 0.1 && a.angle_to(b).abs() < 3.0 {
                 $o.emit(json!({"k": "rel", "op": "rot_reach", "f": $fm, "ty": $ty, "quat": 0, "sp": "general target", "a": $wv(&a), "b": $wv(&b), "got": $wv(&a.rotate_towards(b, 4.0))}));
             }
+            for (tb, sp) in [(b, "general"), (a * 1.5, "parallel"), (a * -2.0, "opposite")] {
+                if tb.length() > 0.1 {
+                    for st in [0.3 as $S, -0.25, 1.0, -2.0, 5.0] {
+                        $o.emit(json!({"k": "rel", "op": "rot_len", "f": $fm, "ty": $ty, "sp": format!("{sp} step {st}"), "a": $wv(&a), "b": $wv(&tb), "got": $wv(&a.rotate_towards(tb, st))}));
+                    }
+                }
+            }
         }
     }};
     (@vslerp $o:ident, $r:ident, $V:ident, $S:ident, $fm:expr, $w:ident, $wv:ident, $ro:ident, $ty:ident) => {{
@@ -853,7 +871,9 @@ macro_rules! rel_vec {
                 let ph = sp.normalize();
                 let ang: $S = [0.05, 0.3, 1.0, 2.0, 2.8, 1.5][$r.below(6) as usize];
                 let a = ah0 * (0.5 + (unit_f64($r) * 3.5) as $S);
-                let b = (ah0 * ang.cos() + ph * ang.sin()) * (0.5 + (unit_f64($r) * 3.5) as $S);
+                // one draw in four: exactly opposite directions with a different length (the path is a half circle in some plane)
+                let b = if $r.below(4) == 0 { a * [-2.0 as $S, -0.5, -4.0][$r.below(3) as usize] }
+                        else { (ah0 * ang.cos() + ph * ang.sin()) * (0.5 + (unit_f64($r) * 3.5) as $S) };
                 let rs: Vec<$V> = (0..=8).map(|j| a.slerp(b, j as $S / 8.0)).collect();
                 $o.emit(json!({"k": "rel", "op": "vslerp8", "f": $fm, "ty": $ty, "a": $wv(&a), "b": $wv(&b), "ah": $wv(&a.normalize()), "bh": $wv(&b.normalize()),
                     "la": $w(a.length()), "lb": $w(b.length()),
@@ -877,6 +897,14 @@ macro_rules! rel_vec {
             let b = $ro($r);
             if b.length() > 0.1 && a.angle_between(b) < 3.0 {
                 $o.emit(json!({"k": "rel", "op": "rot_reach", "f": $fm, "ty": $ty, "quat": 0, "sp": "general target", "a": $wv(&a), "b": $wv(&b), "got": $wv(&a.rotate_towards(b, 4.0))}));
+            }
+            // any step keeps the length: partial, negative and overshooting steps, towards general, parallel and exactly opposite targets
+            for (tb, sp) in [(b, "general"), (a * 1.5, "parallel"), (a * -2.0, "opposite"), (a * -0.5, "opposite")] {
+                if tb.length() > 0.1 {
+                    for st in [0.3 as $S, -0.25, 1.0, -2.0, 5.0] {
+                        $o.emit(json!({"k": "rel", "op": "rot_len", "f": $fm, "ty": $ty, "sp": format!("{sp} step {st}"), "a": $wv(&a), "b": $wv(&tb), "got": $wv(&a.rotate_towards(tb, st))}));
+                    }
+                }
             }
         }
         rel_vec!(@vslerp $o, $r, $V, $S, $fm, $w, $wv, $ro, $ty);
@@ -1042,9 +1070,9 @@ macro_rules! rel_rot {
             $o.emit(ev);
         }
         // ---- quaternion <-> matrix on random rotations (small, generic and nearly half-turn rotations: all four extraction branches)
-        for _ in 0..4 {
+        for _ in 0..8 {
             let axis = $V3::new((unit_f64($r) * 2.0 - 1.0) as $S, (unit_f64($r) * 2.0 - 1.0) as $S, (unit_f64($r) * 2.0 - 1.0) as $S).normalize();
-            let ang: $S = match $r.below(5) { 0 => (unit_f64($r) * 6.28 - 3.14) as $S, 1 => 3.1 + (unit_f64($r) * 0.08) as $S, 2 => (unit_f64($r) * 1e-3) as $S, 3 => 2.0 + unit_f64($r) as $S, _ => -(2.2 + unit_f64($r) as $S) };
+            let ang: $S = match $r.below(5) { 0 => (unit_f64($r) * 6.28 - 3.14) as $S, 1 => 3.1 + (unit_f64($r) * 0.08) as $S, 2 => (10.0f64).powf(-7.5 + 5.5 * unit_f64($r)) as $S, /* tiny rotations, log-uniform 3e-8 .. 1e-2 */ 3 => 2.0 + unit_f64($r) as $S, _ => -(2.2 + unit_f64($r) as $S) };
             if !axis.is_finite() { continue; }
             let q = $Q::from_axis_angle(axis, ang);
             let ev = |ty: &str, sp: &str, q: &$Q, m: &[$S]| json!({"k": "rel", "op": "quat_mat", "f": $fm, "ty": ty, "sp": sp, "q": wv(&q.to_array()), "m": wm3(m)});
